@@ -186,16 +186,6 @@ def srcRun (s : S) : List Frame → S
   | [] => s
   | f :: fs => srcRun (BV.Src.Ash.AshProtocol.frame_received (ofM f) s).2 fs
 
-/-- environment calls made between two states, read as model events -/
-def srcEvs (s s' : S) : List Ev := (s'.trace.drop s.trace.length).filterMap toMEv
-
-theorem srcEvs_trans (s t u : S) (h1 : s.trace <+: t.trace) (h2 : t.trace <+: u.trace) :
-    srcEvs s u = srcEvs s t ++ srcEvs t u := by
-  obtain ⟨x, hx⟩ := h1
-  obtain ⟨y, hy⟩ := h2
-  simp only [srcEvs, ← hy, ← hx, List.append_assoc, List.drop_left, List.filterMap_append]
-  rw [← List.append_assoc, List.drop_left]
-
 theorem ups_evsOf (s t : S) (r : Except PyErr Unit) : ups (evsOf s t r) = ups (srcEvs s t) := by
   cases r <;> simp [evsOf, srcEvs, outcome, ups, List.filterMap_append]
 
@@ -204,7 +194,7 @@ theorem c04_src_frame_received (s : S) (hw : WFs s) (hrx : s.rx_seq < 8) (f : Fr
     let res := BV.Src.Ash.AshProtocol.frame_received (ofM f) s
     let m := onFrame (absS s flag) f
     absS res.2 m.1.ackTimeoutReset = m.1 ∧ evsOf s res.2 res.1 = m.2 ∧ WFs res.2 ∧ res.2.rx_seq < 8 ∧
-      s.trace <+: res.2.trace := frame_received_eq s hw hrx f flag
+      s.trace <+: res.2.trace ∧ res.2.buffer = s.buffer ∧ res.2.discarding = s.discarding := frame_received_eq s hw hrx f flag
 
 /-- source level: a DATA frame's payload is handed up iff its number is the expected one, then exactly once -/
 theorem c04_src_accept_iff (s : S) (hw : WFs s) (hrx : s.rx_seq < 8) (ho : isOpen s = true)
@@ -222,7 +212,7 @@ theorem srcRun_spec (s : S) (hw : WFs s) (hrx : s.rx_seq < 8) (ho : isOpen s = t
   induction fs generalizing s acc with
   | nil => simp [srcRun, srcEvs, ups]
   | cons f fs ih =>
-    obtain ⟨h1, h2, h3, h4, h5⟩ := frame_received_eq s hw hrx f false
+    obtain ⟨h1, h2, h3, h4, h5, -, -⟩ := frame_received_eq s hw hrx f false
     have hspec := onFrame_spec (absS s false) ho f acc
     have ho' : isOpen (BV.Src.Ash.AshProtocol.frame_received (ofM f) s).2 = true := by
       have := congrArg Rx.open_ h1
